@@ -12,4 +12,7 @@ bash ocaml/build.sh
 cp /repo/Cargo.lock harness/Cargo.lock
 (cd harness && cargo build --release --offline 2>&1 | tail -2)
 test -x harness/target/release/avrodrive
+# Miri replay crate of C10 (native build + warm Miri build)
+cp /repo/Cargo.lock harness_miri/Cargo.lock
+(cd harness_miri && cargo build --release --offline 2>&1 | tail -1 && (echo "" | MIRIFLAGS=-Zmiri-disable-isolation timeout 1200 cargo +nightly miri run --offline -q >/dev/null 2>&1 || true))
 echo "setup ok"
